@@ -145,8 +145,8 @@ func init() {
 		Rule: "N goroutines, each with its own Writer/Reader instances (flate/gzip/zlib, mixed settings, valid and malformed inputs) run concurrently under GOMAXPROCS 1..16 (also in a -race build); every instance's bytes and errors are compared with the same workload run alone; non-trivial = workload has >= 1 KiB of data; distinct by (workload kind, setting, size class)",
 		Gen: func(r *Rng, tier string) []Case {
 			var cs []Case
-			for i := 0; i < tierN(tier, 6, 40); i++ {
-				cs = append(cs, Case{Prop: "C17", K: int(r.U64() >> 33), Ints: []int{r.Pick([]int{1, 2, 4, 8, 16}), r.Pick([]int{8, 16, 32})}})
+			for i := 0; i < tierN(tier, 16, 80); i++ {
+				cs = append(cs, Case{Prop: "C17", K: int(r.U64() >> 33), Ints: []int{r.Pick([]int{1, 2, 4, 8, 16, 16}), r.Pick([]int{8, 16, 32})}})
 			}
 			return cs
 		},
@@ -604,6 +604,32 @@ func (w workload) run() string {
 			errs += o.Err + ","
 		}
 		return digestOf(tr.Out, nil) + errs + tr.Panic
+	case "recycle":
+		// the pooled-reader idiom: read, Close, Reset onto the next stream, read
+		rd, err := newFastReader(w.pkg, "new", bytes.NewReader(w.in), nil)
+		if err != nil {
+			return "ctor:" + errKind(err)
+		}
+		out := ""
+		for round := 0; round < 3; round++ {
+			run := runReader(rd, []int{4096}, 1<<23)
+			out += digestOf(run.Out, run.Err) + run.Panic + ";"
+			if c, ok := rd.(io.Closer); ok {
+				c.Close()
+			}
+			var e error
+			switch w.pkg {
+			case "gzip":
+				e = rd.(interface{ Reset(io.Reader) error }).Reset(bytes.NewReader(w.in))
+			default:
+				e = rd.(resetter).Reset(bytes.NewReader(w.in), nil)
+			}
+			if e != nil {
+				out += "reset:" + errKind(e)
+				break
+			}
+		}
+		return out
 	default:
 		rd, err := newFastReader(w.pkg, "new", bytes.NewReader(w.in), nil)
 		if err != nil {
@@ -619,7 +645,20 @@ func checkC17(c *Case, st *Stats) *Violation {
 	procs, n := c.Ints[0], c.Ints[1]
 	var ws []workload
 	for i := 0; i < n; i++ {
-		if r.Bool() {
+		if r.Intn(3) == 0 {
+			// very skewed symbol counts: the length-limiting path of the code-length generator, block after block
+			cfg := RandCfg(r, allPkgs, true)
+			var ops []Op
+			for k := 0; k < 12; k++ {
+				ops = append(ops, Op{K: "W", D: HexB(Payload(r, "fib", 3000+r.Intn(3000)))}, Op{K: "F"})
+			}
+			ops = append(ops, Op{K: "C"})
+			ws = append(ws, workload{kind: "write", cfg: cfg, ops: ops})
+		} else if r.Intn(3) == 0 {
+			pkg := r.Pick2("flate", "gzip", "zlib")
+			s, _, _ := genContainerStream(r, pkg, "quick")
+			ws = append(ws, workload{kind: "recycle", pkg: pkg, in: s})
+		} else if r.Bool() {
 			cfg := RandCfg(r, allPkgs, r.Intn(3) != 0)
 			_, data := RandPayload(r, 150000)
 			ops := append(SplitOps(r, data, r.Intn(5), r.Pick([]int{0, 20})), Op{K: "C"})
